@@ -366,6 +366,81 @@ let () =
           (int_of_nat st.Listen.naccepted) (Stdlib.List.length es - Stdlib.List.length rest)
       | _ -> failwith "listen_model")
 
+(* ---- parser / formatter (C10-C12) ---- *)
+(* UTF-8 -> code points (input is valid UTF-8: the harness only sends what Rust accepts as &str) *)
+let codepoints (s : string) : coq_N list =
+  let n = String.length s in
+  let rec go i acc =
+    if i >= n then Stdlib.List.rev acc else
+      let c = Char.code s.[i] in
+      if c < 0x80 then go (i+1) (n_of_int c :: acc)
+      else if c < 0xE0 then go (i+2) (n_of_int (((c land 0x1F) lsl 6) lor (Char.code s.[i+1] land 0x3F)) :: acc)
+      else if c < 0xF0 then go (i+3) (n_of_int (((c land 0x0F) lsl 12) lor ((Char.code s.[i+1] land 0x3F) lsl 6) lor (Char.code s.[i+2] land 0x3F)) :: acc)
+      else go (i+4) (n_of_int (((c land 0x07) lsl 18) lor ((Char.code s.[i+1] land 0x3F) lsl 12) lor ((Char.code s.[i+2] land 0x3F) lsl 6) lor (Char.code s.[i+3] land 0x3F)) :: acc)
+  in go 0 []
+let utf8_of_cps (l : coq_N list) : coq_N list = Stdlib.List.concat (Stdlib.List.map Json.utf8_enc l)
+let jstr (l : coq_N list) = Json.JStr (utf8_of_cps l)
+let key s = bytes_of_string s
+
+let rec jtype (t : Idl.vtype) : Json.json =
+  match t with
+  | Idl.TBool -> Json.JStr (key "bool") | Idl.TInt -> Json.JStr (key "int") | Idl.TFloat -> Json.JStr (key "float")
+  | Idl.TString -> Json.JStr (key "string") | Idl.TObject -> Json.JStr (key "object")
+  | Idl.TName n -> Json.JObj [ (key "name", jstr n) ]
+  | Idl.TStruct fs -> Json.JObj [ (key "struct", jfields fs) ]
+  | Idl.TEnum es -> Json.JObj [ (key "enum", Json.JArr (Stdlib.List.map jstr es)) ]
+  | Idl.TArr t -> Json.JObj [ (key "array", jtype t) ]
+  | Idl.TDict t -> Json.JObj [ (key "dict", jtype t) ]
+  | Idl.TOpt t -> Json.JObj [ (key "option", jtype t) ]
+and jfields fs = Json.JArr (Stdlib.List.map (fun (n, t) -> Json.JObj [ (key "name", jstr n); (key "type", jtype t) ]) fs)
+
+let jidl (i : Idl.idl) : Json.json =
+  let ms = i.Idl.i_members in
+  let typedefs = Stdlib.List.filter_map (fun m -> match m with
+      | Idl.MTypeS (n, d, fs) -> Some (Json.JObj [ (key "name", jstr n); (key "doc", jstr d); (key "struct", jfields fs) ])
+      | Idl.MTypeE (n, d, es) -> Some (Json.JObj [ (key "name", jstr n); (key "doc", jstr d); (key "enum", Json.JArr (Stdlib.List.map jstr es)) ])
+      | _ -> None) ms in
+  let methods = Stdlib.List.filter_map (fun m -> match m with
+      | Idl.MMethod (n, d, a, b) -> Some (Json.JObj [ (key "name", jstr n); (key "doc", jstr d); (key "input", jfields a); (key "output", jfields b) ])
+      | _ -> None) ms in
+  let errors = Stdlib.List.filter_map (fun m -> match m with
+      | Idl.MError (n, d, fs) -> Some (Json.JObj [ (key "name", jstr n); (key "doc", jstr d); (key "struct", jfields fs) ])
+      | _ -> None) ms in
+  Json.JObj [ (key "name", jstr i.Idl.i_name); (key "doc", jstr i.Idl.i_doc); (key "typedefs", Json.JArr typedefs);
+              (key "methods", Json.JArr methods); (key "errors", Json.JArr errors) ]
+
+let kind_word = function Idl.KMethod -> "method " | Idl.KType -> "type " | Idl.KError -> "error "
+
+let () =
+  register "parse" (fun a ->
+      match a with
+      | [x] ->
+        (match Idl.try_from (codepoints (unhex x)) with
+         | Idl.OIdl i -> "ok " ^ bh (Json.print (jidl i))
+         | Idl.OParseError -> "parse_error"
+         | Idl.OOutOfFuel -> "FUEL"
+         | Idl.ODuplicates ds ->
+           (* the implementation's messages need the interface name: reparse is avoided by carrying names only *)
+           "idl_error " ^ String.concat "," (Stdlib.List.sort_uniq compare (Stdlib.List.map (fun d -> match d with
+               | Idl.DupCross n -> "x:" ^ string_of_bytes (utf8_of_cps n)
+               | Idl.DupSame (k, n) -> (kind_word k) ^ ":" ^ string_of_bytes (utf8_of_cps n)) ds)))
+      | _ -> failwith "parse");
+  register "iname" (fun a ->
+      match a with
+      | [x] -> (match Idl.interface_name (codepoints (unhex x)) with Some [] -> "full" | Some _ -> "prefix" | None -> "none")
+      | _ -> failwith "iname");
+  register "format" (fun a ->
+      match a with
+      | [_mode; w; x] ->
+        (match Idl.try_from (codepoints (unhex x)) with
+         | Idl.OIdl i ->
+           let width = (try int_of_string w with _ -> max_int) in
+           (* widths beyond any text length behave alike: cap for the unary naturals of the model *)
+           let width = if width > 100000 then 100000 else width in
+           "ok " ^ bh (utf8_of_cps (Format.format_src (nat_of_int width) i))
+         | _ -> "err")
+      | _ -> failwith "format")
+
 let () =
   let tbl = handlers in
   (try
